@@ -48,6 +48,7 @@ def reg(c):
 
 
 TYPES = "server/store/types"
+SRV = "server"
 
 reg(Check("C05", "exploration",
           "exhaustive enumeration: all 256 modes, all 256x256 ordered pairs, all strings of length <=5 (quick) / <=6 "
@@ -79,17 +80,26 @@ reg(Check("C04", "model_checking",
 reg(Check("C20", "exploration",
           "ids: each 16-bit lane over all 65536 values against 3 backgrounds through every text/binary/JSON/prefixed form; every "
           "1- and 2-position corruption (full byte range) of 3 valid encodings plus all other lengths; all ordered pairs of a "
-          "64-element corner set for P2P names; grp/chn spellings. Non-trivial = distinct non-zero ids / distinct invalid strings / "
-          "distinct unordered pairs.",
+          "64-element corner set for P2P names; grp/chn spellings. Messages: for each of the 10 client and 5 server message kinds "
+          "a template populating every field of the datamodel struct (checked by reflection), with every leaf or sub-object "
+          "removed alone (quick) and in pairs (thorough) and, for requests, added alone / in pairs to the minimal message; each "
+          "variant goes JSON -> struct -> protobuf -> wire -> protobuf -> struct and the two readings are compared; {ctrl} "
+          "params of 4 Go map types. Non-trivial = distinct non-zero ids / distinct invalid strings / distinct unordered pairs / "
+          "distinct message variants.",
           ["independent reference base64url codec written in the harness",
-           "a base64 string whose last character carries non-zero pad bits is an alias of the same id (Go's lenient decoder); counted, not raised"],
-          text="Bounded-exhaustive enumeration of identifier lanes, corruptions and pairs against an independent codec.",
-          note="protobuf/JSON message equivalence part is in package main (pending)",
+           "a base64 string whose last character carries non-zero pad bits is an alias of the same id (Go's lenient decoder); counted, not raised",
+           "messages: the repository's own pbCliSerialize / pbServDeserialize are the other half of each round trip, so a field dropped "
+           "by either direction is reported; the protobuf schema has no 'del' section in GetQuery and no 'mode' in AccessMode "
+           "(schema gaps, not compared); level names are compared through auth.ParseAuthLevel; one value per field"],
+          text="Bounded-exhaustive enumeration of identifier lanes, corruptions, pairs and message field-presence variants.",
+          note="message values are one representative per field; presence/absence is what is enumerated",
           technique="bounded-exhaustive enumeration against a reference model",
           engine="E4 enum", claimed=True,
           parts=[Part("uid", TYPES, "^TestVerifC20Uid$", shards=(8, 8)),
                  Part("uidcorrupt", TYPES, "^TestVerifC20UidCorrupt$", shards=(11, 11)),
-                 Part("p2p", TYPES, "^TestVerifC20P2P$")]))
+                 Part("p2p", TYPES, "^TestVerifC20P2P$"),
+                 Part("pb-client", SRV, "^TestVerifC20Client$", instr=True),
+                 Part("pb-server", SRV, "^TestVerifC20Server$", instr=True)]))
 
 reg(Check("C17", "model_checking",
           "placement: all 31 non-empty subsets of a 5-name universe (names that are prefixes/suffixes of each other) x all "
@@ -128,7 +138,6 @@ reg(Check("C18", "fault_enumeration",
           engine="E5 sqlfake", claimed=True,
           parts=[Part("sqlfaults", "server/db/mysql", "^TestVerifC18", tags="mysql", gomaxprocs=4)]))
 
-SRV = "server"
 reg(Check("C01", "model_checking",
           "schedules: every interleaving of the session read loops, topic actor, hub, user cache and write loops of 3 scenarios "
           "(3 publishers on a group; 2x2 publishes member vs root-on-behalf; 2 publishers on p2p) up to the deviation bound "
